@@ -25,7 +25,8 @@ from feems.components_model.node import get_duration_s
 from feems.fuel import FuelSpecifiedBy
 
 THEOREMS = ["total_eq_sum", "append", "split", "perm", "scale", "duration_eq", "duration_append", "singleton", "integrate_is_total",
-            "running_hours_append", "running_hours_scale"]
+            "running_hours_append", "running_hours_scale", "dot_append", "component_figures_append", "component_fuel_append"]
+EXTRA_PROOF_MODULES = ["FeemsProofs.C11Component"]
 DEPENDS_ON_MODULES = ["FeemsProofs.C17"]
 
 
